@@ -2,6 +2,5 @@ SPECIFICATION TraceSpec
 CONSTANTS
   Deviations <- @DEVIATIONS@
 CONSTRAINT Progress
-INVARIANT OnlyRotations
 POSTCONDITION Accepted
 CHECK_DEADLOCK FALSE
